@@ -60,9 +60,18 @@ fn observe(xs: &mut Xstate, result: &Xresult, built: bool) -> Obs {
     }
 }
 
-fn drive(base: &Xstate, src: &str, mode: usize, rec: bool) -> Result<Obs, String> {
-    let mut xs = base.clone();
-    xs.set_recording_enabled(rec);
+/// two-source histories: (first source tail, second source) - the second source redefines / updates what the first used
+const SCENARIOS: [(&str, &str); 7] = [
+    ("late W_ : Q_ W_ ; 1 var W_ Q_", "2 var W_ Q_"),
+    ("late F_ : G_ F_ 1 + ; : F_ 10 ; G_", ": F_ 20 ; G_"),
+    ("5 var cv_", "cv_ 1 + ! cv_ cv_"),
+    (": rw_ 1 ; rw_", ": rw_ 2 ; rw_"),
+    ("[ 1 2 ] var sv_ sv_ \"kg\" \"unit\" insert-tag ! sv_", "sv_ \"unit\" get-tag sv_ length"),
+    ("255 var hx_ hx_ ^hex ! hx_", "hx_ print hx_ ^dec ! hx_ hx_ print"),
+    ("1 0 /", "7"),
+];
+
+fn drive_one(xs: &mut Xstate, src: &str, mode: usize) -> Result<Obs, String> {
     xs.set_insn_limit(Some(INSN_LIMIT)).unwrap();
     let r = guard(|| match mode {
         0 => {
@@ -90,16 +99,26 @@ fn drive(base: &Xstate, src: &str, mode: usize, rec: bool) -> Result<Obs, String
             Err(e) => (Err(e), false),
         },
     })?;
-    let mut o = observe(&mut xs, &r.0, r.1);
-    if r.0.is_err() && r.1 && mode > 0 {
-        // retrying the failed instruction must behave the same under run() and next()
-        let again = guard(|| if mode == 1 { xs.run() } else { xs.next() })?;
-        if again.is_err() {
-            let loc = xs.last_err_location().map(|l| format!("{}:{:?}", l.filename, l.token.range())).unwrap_or_else(|| "-".into());
-            o.retry = format!("{} at {} stack [{}]", xs::render_res(&again), loc, xs::render_stack(&xs));
+    Ok(observe(xs, &r.0, r.1))
+}
+
+fn drive(base: &Xstate, sources: &[String], mode: usize, rec: bool) -> Result<Vec<Obs>, String> {
+    let mut xs = base.clone();
+    xs.set_recording_enabled(rec);
+    let mut v = Vec::new();
+    for (i, src) in sources.iter().enumerate() {
+        let mut o = drive_one(&mut xs, src, mode)?;
+        if i + 1 == sources.len() && o.result != "Ok" && o.built && mode > 0 {
+            // retrying the failed instruction must behave the same under run() and next()
+            let again = guard(|| if mode == 1 { xs.run() } else { xs.next() })?;
+            if again.is_err() {
+                let loc = xs.last_err_location().map(|l| format!("{}:{:?}", l.filename, l.token.range())).unwrap_or_else(|| "-".into());
+                o.retry = format!("{} at {} stack [{}]", xs::render_res(&again), loc, xs::render_stack(&xs));
+            }
         }
+        v.push(o);
     }
-    Ok(o)
+    Ok(v)
 }
 
 fn diff(a: &Obs, b: &Obs, failing_build: bool, failing: bool) -> Option<String> {
@@ -167,11 +186,21 @@ pub fn case(ch: &mut Choices, ctx: &CaseCtx) -> CaseOut {
             prelude_src = pre.source.clone();
         }
     }
+    // 1 case in 3 is a two-source history: the second source redefines / updates what the first one used
+    let mut sources: Vec<String> = vec![p.source.clone()];
+    let mut two = false;
+    if ch.chance(1, 3) {
+        let (first, second) = SCENARIOS[ch.below(SCENARIOS.len())];
+        let tag = format!("{}", ch.below(3));
+        sources[0] = format!("{}\n{}", first.replace('_', &tag), p.source);
+        sources.push(second.replace('_', &tag));
+        two = true;
+    }
     let names = ["eval", "compile+run", "compile+step"];
-    let mut obs: Vec<(String, Obs)> = Vec::new();
+    let mut obs: Vec<(String, Vec<Obs>)> = Vec::new();
     for mode in 0..3 {
         for rec in [false, true] {
-            match drive(&base, &p.source, mode, rec) {
+            match drive(&base, &sources, mode, rec) {
                 Ok(o) => obs.push((format!("{}{}", names[mode], if rec { "+rec" } else { "" }), o)),
                 Err(pm) => {
                     out.fail(format!("panic: {}", pm), format!("drive {} recording {}", names[mode], rec));
@@ -180,26 +209,30 @@ pub fn case(ch: &mut Choices, ctx: &CaseCtx) -> CaseOut {
         }
     }
     if out.fail.is_none() {
-        // was the source rejected at build time? (compile failed)
-        let failing_build = obs.iter().any(|(_, o)| !o.built);
-        let failing = obs[0].1.result != "Ok";
-        'outer: for i in 0..obs.len() {
-            for j in i + 1..obs.len() {
-                let (n0, o0) = &obs[i];
-                let (n, o) = &obs[j];
-                if let Some(d) = diff(o0, o, failing_build, failing) {
-                    let what = d.split(':').next().unwrap_or("").to_string();
-                    out.fail(
-                        format!("{} vs {}: {} differs{}", n0, n, what, if failing { " (failing program)" } else { "" }),
-                        format!("{} vs {}: {}", n0, n, d),
-                    );
-                    break 'outer;
+        'outer: for k in 0..sources.len() {
+            // was the source rejected at build time? (compile failed)
+            let failing_build = obs.iter().any(|(_, o)| !o[k].built);
+            let failing = obs[0].1[k].result != "Ok";
+            for i in 0..obs.len() {
+                for j in i + 1..obs.len() {
+                    let (n0, o0) = (&obs[i].0, &obs[i].1[k]);
+                    let (n, o) = (&obs[j].0, &obs[j].1[k]);
+                    if let Some(d) = diff(o0, o, failing_build, failing) {
+                        let what = d.split(':').next().unwrap_or("").to_string();
+                        out.fail(
+                            format!("{} vs {}: {} differs{}{}", n0, n, what, if failing { " (failing program)" } else { "" }, if k > 0 { " (second source)" } else { "" }),
+                            format!("source #{}: {} vs {}: {}", k, n0, n, d),
+                        );
+                        break 'outer;
+                    }
                 }
             }
         }
-        // recording must not change anything within one drive mode either (already implied by the chain above)
         let kinds = p.features.len();
-        out.nontrivial = (obs[0].1.insns >= 10 && kinds >= 3) || (p.features.contains(&"token-soup") && obs[0].1.insns >= 3);
+        let first = &obs[0].1[0];
+        out.nontrivial = (first.insns >= 10 && kinds >= 3) || (p.features.contains(&"token-soup") && first.insns >= 3) || two;
+        let failing_build = obs.iter().any(|(_, o)| !o[0].built);
+        let failing = first.result != "Ok";
         if failing_build {
             out.class("rejected-at-build");
         } else if failing {
@@ -207,13 +240,16 @@ pub fn case(ch: &mut Choices, ctx: &CaseCtx) -> CaseOut {
         } else {
             out.class("succeeds");
         }
+        if two {
+            out.class("two-source-history");
+        }
     }
     for f in &p.features {
         out.class(f);
     }
-    out.hash = hash_of(&(prelude_src.clone(), p.source.clone()));
+    out.hash = hash_of(&(prelude_src.clone(), sources.clone()));
     if ctx.want_render || out.fail.is_some() {
-        out.render = Some(format!("prelude: {}\nsource: {}", prelude_src.replace('\n', "\u{23ce}"), p.source.replace('\n', "\u{23ce}")));
+        out.render = Some(format!("prelude: {}\n{}", prelude_src.replace('\n', "\u{23ce}"), sources.iter().enumerate().map(|(i, s)| format!("source #{}: {}", i, s.replace('\n', "\u{23ce}"))).collect::<Vec<_>>().join("\n")));
     }
     out
 }
